@@ -92,6 +92,7 @@ void ProviderPrivate::confirm()
         delete prober;
     }
     prober = new Prober(server, srvProposed, this);
+    probedName = srvProposed.name();
     connect(prober, &Prober::nameConfirmed, [this](const QByteArray &name) {
 
         // If existing records were confirmed, indicate that they are no
@@ -247,14 +248,20 @@ void Provider::update(const Service &service)
     if (!d->srvProposed.target().isEmpty()) {
         if (!d->confirmed || fqName != d->srvRecord.name()) {
             d->confirm();
+        } else if (d->prober && d->probedName == fqName) {
+
+            // A probe for this very name is still pending (the hostname
+            // changed): it decides under which name the service continues
+            // and publishes the updated proposals when it completes
+
         } else {
 
             // The service is already confirmed under this name: a probe that
-            // is still pending (for a previously requested name or because
-            // the hostname changed) is obsolete and must not replace these
-            // records when it completes; probing the name again is not
-            // needed either (and this provider's own announcements, looped
-            // back by the network, would be mistaken for a conflict)
+            // is still pending for a previously requested name is obsolete
+            // and must not replace these records when it completes; probing
+            // the name again is not needed either (and this provider's own
+            // announcements, looped back by the network, would be mistaken
+            // for a conflict)
             if (d->prober) {
                 delete d->prober;
                 d->prober = nullptr;
